@@ -87,12 +87,23 @@ type replayResult struct {
 // runNative runs the jobs against the natively compiled code (go test with the
 // harness injected through -overlay; /repo is not touched).
 func runNative(repoDir, harnessDir string, jobs []replayJob) (map[string]replayResult, string, error) {
+	var wants []string
+	for _, j := range jobs {
+		wants = append(wants, j.Harness)
+	}
+	return runNativeFiles(repoDir, harnessDir, wants, jobs)
+}
+
+func runNativeFiles(repoDir, harnessDir string, wants []string, jobs []replayJob) (map[string]replayResult, string, error) {
 	tmp, err := os.MkdirTemp("", "verif-native-")
 	if err != nil {
 		return nil, "", err
 	}
 	defer os.RemoveAll(tmp)
-	files, _ := filepath.Glob(filepath.Join(harnessDir, "*.go"))
+	files, _ := harnessClosure(harnessDir, wants)
+	if tests, _ := filepath.Glob(filepath.Join(harnessDir, "*_test.go")); len(tests) > 0 {
+		files = append(files, tests...)
+	}
 	repl := map[string]string{}
 	for _, f := range files {
 		base := filepath.Base(f)
@@ -203,7 +214,7 @@ func main() {
 		}
 		if len(j.Decisions) > 0 {
 			// schedule-dependent counterexample: re-execute the recorded decision vector on the real code's SSA
-			g, err := LoadEngine(repoDir, filepath.Join(verifDir, "harness"))
+			g, err := LoadEngine(repoDir, filepath.Join(verifDir, "harness"), []string{j.Harness})
 			if err != nil {
 				fmt.Println("cannot load the tree:", err)
 				os.Exit(2)
@@ -279,7 +290,11 @@ func runCheck(id, tier string, verbose bool, only string, workers int, noval boo
 		repoDir = d
 	}
 	harnessDir := filepath.Join(verifDir, "harness")
-	g, err := LoadEngine(repoDir, harnessDir)
+	var wantFns []string
+	for _, h := range spec.Harnesses {
+		wantFns = append(wantFns, h.Fn)
+	}
+	g, err := LoadEngine(repoDir, harnessDir, wantFns)
 	if err != nil {
 		fmt.Println("INCONCLUSIVE: cannot load/encode the tree:", err)
 		writeEvidence(spec, tier, seed, nil, nil, time.Since(t0).Seconds(), 0, []string{"load failed: " + err.Error()}, nil, 0, g)
